@@ -1,6 +1,7 @@
 import Hive.Model.Ads
 import Hive.Model.AdsId
 import Hive.Model.AdsTyped
+import Hive.Model.AdsFault
 /-!
 # Several authenticated maps / sets in one database (C09)
 
@@ -194,6 +195,8 @@ structure RInst where
   /-- a constructor whose identifier decoder failed started a new trie over the old records: what lies in the
   node store is then no longer a function of the last `Commit` (`peek` answers `nodes=?`) -/
   garbage : Bool := false
+  /-- `fault`: the write fault of the store below the instance -/
+  fault : Fault := .none
 
 structure Sess where
   dbs : List (Nat × DB R0)
@@ -229,23 +232,27 @@ def idCodecOf (mode : Nat) : IdCodec R0 R0 :=
     dec := fun b => if mode / 2 % 2 == 1 then none else some b }
 
 /-- One call on the instance with realm `r` through `istep` (root cell, failing identifier serializers). -/
-def stepAtI (c : Cfg R0) (mode : Nat) (db : DB R0) (r : Realm) (mem : KV) (op : Op) : DB R0 × KV × IOut R0 :=
+def stepAtI (c : Cfg R0) (mode : Nat) (f : Fault) (db : DB R0) (r : Realm) (mem : KV) (op : Op) : DB R0 × KV × FOut R0 :=
   let s := load layout db r mem
-  let (st', o) := istep c (idCodecOf mode) (fun _ _ => true) { s := s, cell := s.rootKey, dangling := none } op
+  let (st', o) := fstep c (idCodecOf mode) (fun _ _ => true) f { s := s, cell := s.rootKey, dangling := none } op
   (store layout db r { st'.s with rootKey := st'.cell }, st'.s.trie.mem, o)
 
 /-- One call on the typed surface of instance `x`: the typed request is encoded (`encOp`), run on the instance with its
 root cell (`stepAtI`), and the answer is read back through the serializers (`tout`, from the state before the call).
-`none`: `Commit` answered "failed to set root". -/
-def tstepAtI (x : RInst) (db : DB R0) (top : TyOp0) : DB R0 × KV × Option (TyOut (List UInt8) (List UInt8) R0) :=
+An error of the root cell / the size cell / the raw-key store is answered as such. -/
+def tstepAtI (x : RInst) (db : DB R0) (top : TyOp0) : DB R0 × KV × Except String (TyOut (List UInt8) (List UInt8) R0) :=
   let kc := codecOf x.cd
   let pre := load layout db x.realm x.mem
-  let (db', mem', o) := stepAtI (cfgC x.cd) x.idmode db x.realm x.mem (encOp kc top)
-  (db', mem', match o with | .errSetRoot => none | .out o => some (tout kc pre top o))
+  let (db', mem', o) := stepAtI (cfgC x.cd) x.idmode x.fault db x.realm x.mem (encOp kc top)
+  (db', mem', match o with
+    | .out .errSetRoot => .error "err-root"
+    | .errSize => .error "err-size"
+    | .errRaw => .error "err-raw"
+    | .out (.out o) => .ok (tout kc pre top o))
 
-def showTy? : Option (TyOut (List UInt8) (List UInt8) R0) → String
-  | none => "err-root"
-  | some o => showTyOut o
+def showTy? : Except String (TyOut (List UInt8) (List UInt8) R0) → String
+  | .error e => e
+  | .ok o => showTyOut o
 
 /-- `rmw <i> <key> <byte>` — read-modify-write-back: `v := Get(key)`; the first byte of `v` is replaced;
 `Set(key, v)`.  A failed or empty `Get` ends it with `Get`'s answer (`empty` for the empty value). -/
@@ -258,8 +265,8 @@ def rmwLine (ss : Sess) (i : Nat) (x : RInst) (args : List String) : Sess × Str
       if nb.toNat ≥ 0x80 then (ss, "bad-op") else
       let (db₁, mem₁, o₁) := tstepAtI x db (.get kb)
       match o₁ with
-      | some (.found []) => ((ss.putDb x.db db₁).putInst i { x with mem := mem₁ }, "empty")
-      | some (.found (_ :: rest)) =>
+      | .ok (.found []) => ((ss.putDb x.db db₁).putInst i { x with mem := mem₁ }, "empty")
+      | .ok (.found (_ :: rest)) =>
         let (db₂, mem₂, o₂) := tstepAtI { x with mem := mem₁ } db₁ (.set kb (nb :: rest))
         ((ss.putDb x.db db₂).putInst i { x with mem := mem₂ }, showTy? o₂)
       | o => ((ss.putDb x.db db₁).putInst i { x with mem := mem₁ }, showTy? o)
@@ -312,6 +319,14 @@ def stepLine (ss : Sess) (toks : List String) : Sess × String :=
       | some x =>
         if verb == "rmw" then rmwLine ss i x args else
         if verb == "peek" then (ss, peekLine ss x args) else
+        if verb == "fault" then
+          match args with
+          | ["off"] => (ss.putInst i { x with fault := .none }, "ok")
+          | ["root-w"] => (ss.putInst i { x with fault := .rootW }, "ok")
+          | ["size-w"] => (ss.putInst i { x with fault := .sizeW }, "ok")
+          | ["raw-w"] => (ss.putInst i { x with fault := .rawW }, "ok")
+          | _ => (ss, "bad-op")
+        else
         if verb == "idfail" then
           match args with
           | ["off"] => (ss.putInst i { x with idmode := 0 }, "ok")
@@ -329,7 +344,7 @@ def stepLine (ss : Sess) (toks : List String) : Sess × String :=
           let garbage := x.garbage || (verb == "reopen" && x.idmode / 2 % 2 == 1 && hadCell)
           let ss' := (ss.putDb x.db db').putInst i { x with mem := mem', garbage := garbage }
           match o with
-          | some (.out (.root _)) =>
+          | .ok (.out (.root _)) =>
             -- roots are compared as equality classes: the first point of the session with these contents
             let pts := ss.points ++ [x.mem]
             ({ ss' with points := pts }, s!"class {classOf x.mem pts}")
